@@ -407,6 +407,16 @@ func (workingMem *WorkingMemory) ResetVariable(variable *Variable) bool {
 	return reseted
 }
 
+// ResetSelectorsOf resets every variable that reads the given variable through a selector (Parent[key]).
+// To be called when a member of Parent was written under its name (Parent.key), which is the same place.
+func (workingMem *WorkingMemory) ResetSelectorsOf(parent *Variable) {
+	for _, variable := range workingMem.variableSnapshotMap {
+		if variable.Variable == parent && variable.ArrayMapSelector != nil {
+			workingMem.ResetVariable(variable)
+		}
+	}
+}
+
 // ResetAll sets all expression evaluated status to false.
 // Returns true if any expression was reset, false if otherwise
 func (workingMem *WorkingMemory) ResetAll() bool {
